@@ -50,6 +50,18 @@ pub fn take_trace() -> String {
 }
 
 fn verify_as<T: bytemuck::Pod + ZkProofData<U>, U: bytemuck::Pod>(b: &[u8]) -> String {
+    // the proof program reads the proof data at `instruction_data[1..]`, an odd address: decoding must not depend on
+    // where the bytes sit (the proof-data types have alignment 1)
+    {
+        let mut shifted = vec![0u8; b.len() + 9];
+        for off in [1usize, 4] {
+            shifted[off..off + b.len()].copy_from_slice(b);
+            let at_off = bytemuck::try_from_bytes::<T>(&shifted[off..off + b.len()]).is_ok();
+            // compare with a read that cannot depend on alignment
+            let unaligned_ok = b.len() == std::mem::size_of::<T>();
+            if at_off != unaligned_ok { return format!("variant-mismatch:alignment:{}", std::mem::align_of::<T>()) }
+        }
+    }
     match bytemuck::try_from_bytes::<T>(b) {
         Err(_) => "R".into(),
         Ok(d) => {
@@ -91,6 +103,37 @@ pub fn construct(instr: &str, a: &[&str]) -> Option<Result<Vec<u8>, String>> {
             Ok(d) => Ok(bytemuck::bytes_of(&d).to_vec()),
             Err(e) => Err(format!("{:?}", e)),
         })
+    }
+    // a refused construction of the same instruction just before (amount off by one): whatever it returns is
+    // ignored here (C20 looks at refusals); it must not influence the construction that follows on this thread
+    match (instr, a) {
+        ("zero", [s, p, c, d, ..]) => { if let (Some(kp), Some(ct)) = (keypair(s, p), ciphertext(c, d)) { let _ = ZeroCiphertextProofData::new(&kp, &ct.add_amount(1u64)); } }
+        ("ctct", [s, p1, p2, c1, d1, c2, d2, r, amt, ..]) => {
+            if let (Some(kp), Some(p2), Some(ct1), Some(ct2), Some(r), Ok(amt)) = (keypair(s, p1), pubkey(p2), ciphertext(c1, d1), ciphertext(c2, d2), opening(r), amt.parse::<u64>()) {
+                let _ = CiphertextCiphertextEqualityProofData::new(&kp, &p2, &ct1, &ct2, &r, amt.wrapping_add(1));
+            }
+        }
+        ("ctcmt", [s, p, c, d, cm, r, amt, ..]) => {
+            if let (Some(kp), Some(ct), Some(cm), Some(r), Ok(amt)) = (keypair(s, p), ciphertext(c, d), commitment(cm), opening(r), amt.parse::<u64>()) {
+                let _ = CiphertextCommitmentEqualityProofData::new(&kp, &ct, &cm, &r, amt.wrapping_add(1));
+            }
+        }
+        ("val2", [p1, p2, c, d1, d2, amt, r, ..]) => {
+            if let (Some(p1), Some(p2), Some(g), Ok(amt), Some(r)) = (pubkey(p1), pubkey(p2), grouped::<2>(&[c, d1, d2]), amt.parse::<u64>(), opening(r)) {
+                let _ = GroupedCiphertext2HandlesValidityProofData::new(&p1, &p2, &g, amt.wrapping_add(1), &r);
+            }
+        }
+        ("val3", [p1, p2, p3, c, d1, d2, d3, amt, r, ..]) => {
+            if let (Some(p1), Some(p2), Some(p3), Some(g), Ok(amt), Some(r)) = (pubkey(p1), pubkey(p2), pubkey(p3), grouped::<3>(&[c, d1, d2, d3]), amt.parse::<u64>(), opening(r)) {
+                let _ = GroupedCiphertext3HandlesValidityProofData::new(&p1, &p2, &p3, &g, amt.wrapping_add(1), &r);
+            }
+        }
+        ("cap", [cm, cd, cc, mx, pct, delta, rp, rd, rc, ..]) => {
+            if let (Some(cm), Some(cd), Some(cc), Ok(mx), Ok(pct), Ok(delta), Some(rp), Some(rd), Some(rc)) = (commitment(cm), commitment(cd), commitment(cc), mx.parse::<u64>(), pct.parse::<u64>(), delta.parse::<u64>(), opening(rp), opening(rd), opening(rc)) {
+                let _ = PercentageWithCapProofData::new(&cm, &rp, pct, &cd, &rd, delta.wrapping_add(1), &cc, &rc, mx);
+            }
+        }
+        _ => {}
     }
     match (instr, a) {
         ("zero", [s, p, c, d, ..]) => {
